@@ -115,6 +115,13 @@ func checkC06(c *Ctx) {
 	lookupOKConsulted(c, fns, "R-ok-consulted")
 	poolResetRule(c, "R-pool-reset") // one peer's truncated input must not be what the next request is parsed from
 	c06IndexGuard(c, fns, "R-index-guard")
+	c06NilMapWrite(c)
+	// a lock shared by all sessions held across a write that the peer paces stalls every other client
+	if _, guard := streamTableAndGuard(c); guard != "" {
+		streamWriteNotUnder(c, "R-table-lock-free-write", guard, "listening-stream table")
+	} else {
+		c.R.Break("R-table-lock-free-write: listening-stream table or its guard not discovered")
+	}
 	c.R.Min("R-nonblocking-send", 10)
 	// close-once
 	for _, cs := range closeSites(c, fns) {
@@ -862,4 +869,143 @@ func lookupOKConsulted(c *Ctx, fns []*ssa.Function, rule string) {
 		})
 	}
 	c.R.Min(rule, 3)
+}
+
+// ---------------------------------------------------------------- R-nil-map-write
+// Writing into a nil map panics. On the server a map that comes out of a peer's message is nil whenever the peer left
+// the member out ("arguments" absent or null), and a panic in a request goroutine of the legacy SSE or stdio server
+// takes the whole process down. Every map update on the server side must therefore be made on a map that cannot be nil
+// there: one the function made, a member of a long-lived object, or a value whose nil-ness was tested — not the zero
+// value of a member of a request-local struct that is only assigned on some paths, nor the unchecked result of a type
+// assertion. A function that writes into a map parameter hands the obligation to its callers.
+func c06NilMapWrite(c *Ctx) {
+	var mayBeNil func(fn *ssa.Function, v ssa.Value, at ssa.Instruction, d int) string
+	mayBeNil = func(fn *ssa.Function, v ssa.Value, at ssa.Instruction, d int) string {
+		if d > 3 || v == nil {
+			return ""
+		}
+		// a dominating nil test of this very value clears it
+		for _, g := range flow.Guards(fn, at.Block()) {
+			if x, op, ok := nilCompare(g.If.Cond); ok && (x == v || sameValue(x, v) || samePath(x, v, 0)) {
+				if (op == token.NEQ && g.Branch) || (op == token.EQL && !g.Branch) {
+					return ""
+				}
+			}
+		}
+		switch x := v.(type) {
+		case *ssa.Const:
+			if x.IsNil() {
+				return "a nil map"
+			}
+		case *ssa.Phi:
+			for _, e := range x.Edges {
+				if w := mayBeNil(fn, e, at, d+1); w != "" {
+					return w
+				}
+			}
+		case *ssa.Extract:
+			if ta, ok := x.Tuple.(*ssa.TypeAssert); ok && ta.CommaOk && x.Index == 0 {
+				// the asserted value is nil when the assertion failed: the use must be on the ok edge
+				var okv ssa.Value
+				for _, r := range *ta.Referrers() {
+					if ex, ok := r.(*ssa.Extract); ok && ex.Index == 1 {
+						okv = ex
+					}
+				}
+				for _, g := range flow.Guards(fn, at.Block()) {
+					if okv != nil && g.If.Cond == okv && g.Branch {
+						return ""
+					}
+				}
+				return "the result of a type assertion that may have failed"
+			}
+		case *ssa.UnOp:
+			if x.Op != token.MUL {
+				return ""
+			}
+			fa, ok := x.X.(*ssa.FieldAddr)
+			if !ok {
+				return ""
+			}
+			root := rootOf(fa.X)
+			al, ok := root.(*ssa.Alloc)
+			if !ok {
+				return "" // a member of an object that outlives the call: initialised by its constructor
+			}
+			// a member of a struct local to this function: some store to that member must dominate the use
+			fr, _, _ := ir.FieldOf(fa)
+			stored := false
+			ir.EachInstr(fn, func(_ *ssa.BasicBlock, _ int, in ssa.Instruction) {
+				st, ok := in.(*ssa.Store)
+				if !ok {
+					return
+				}
+				if fa2, ok := st.Addr.(*ssa.FieldAddr); ok && rootOf(fa2.X) == ssa.Value(al) {
+					if fr2, _, _ := ir.FieldOf(fa2); fr2.Name == fr.Name && flow.Dominates(st, at) {
+						if k, isConst := st.Val.(*ssa.Const); !isConst || !k.IsNil() {
+							stored = true
+						}
+					}
+				}
+				// the whole struct stored at once (composite literal / copy)
+				if st.Addr == ssa.Value(al) && flow.Dominates(st, at) {
+					if _, isAlloc := st.Val.(*ssa.Alloc); !isAlloc {
+						stored = true
+					}
+				}
+			})
+			if !stored {
+				return sprintf("the member %s of a local value, which is assigned only on some paths (it stays nil when the peer leaves the member out)", fr.Name)
+			}
+		case *ssa.Parameter:
+			idx := -1
+			for i, q := range fn.Params {
+				if q == x {
+					idx = i
+				}
+			}
+			for _, e := range ir.Callers(c.G, fn) {
+				if e.Site == nil || !c.P.IsLib(e.Caller.Func) || clientSide(c, e.Caller.Func) {
+					continue
+				}
+				cc := e.Site.Common()
+				ai := idx
+				if cc.IsInvoke() {
+					ai--
+				}
+				if ai < 0 || ai >= len(cc.Args) {
+					continue
+				}
+				if w := mayBeNil(e.Caller.Func, cc.Args[ai], e.Site, d+1); w != "" {
+					return w + " (handed in by " + fname(e.Caller.Func) + ")"
+				}
+			}
+		}
+		return ""
+	}
+	n := 0
+	for _, fn := range c.P.LibFns {
+		if clientSide(c, fn) || c.InitOnly()[fn] {
+			continue
+		}
+		cnt := 0
+		ir.EachInstr(fn, func(_ *ssa.BasicBlock, _ int, in ssa.Instruction) {
+			mu, ok := in.(*ssa.MapUpdate)
+			if !ok {
+				return
+			}
+			if _, isMake := mu.Map.(*ssa.MakeMap); isMake {
+				return
+			}
+			n++
+			cnt++
+			why := mayBeNil(fn, mu.Map, in, 0)
+			c.R.Check(why == "", "R-nil-map-write", sprintf("map update #%d in %s", cnt, fname(fn)), c.Pos(mu.Pos()), "the map cannot be nil here",
+				sprintf("%s writes into a map that may be nil — %s: `assignment to entry in nil map` panics, and a panic in a request goroutine of the legacy SSE or stdio server ends the process for every client", fname(fn), why))
+		})
+	}
+	c.R.Min("R-nil-map-write", 10)
+	if n == 0 {
+		c.R.Break("R-nil-map-write: no map update found on the server side")
+	}
 }
